@@ -102,6 +102,44 @@ pub trait SqrtFld: Fld {
     fn from_words(next: &mut dyn FnMut() -> u64) -> Self;
     /// lexicographic "is larger than its negation" in the ZCash ordering
     fn lex_larger_than_neg(&self) -> bool;
+    /// some cube root, if one exists
+    fn cube_root(&self) -> Option<Self>;
+}
+
+/// cube root in a cyclic group of order n = 9 m (3 not dividing m) given as the non-zero elements of F:
+/// x0 = a^(3^-1 mod m) is a root up to an element of the 3-Sylow subgroup (order 9), found by trial.
+fn cbrt_by_sylow<F: Fld>(a: &F, n: &Z, cand: &dyn Fn(u64) -> F) -> Option<F> {
+    if a.is_zero() {
+        return Some(F::zero());
+    }
+    let three = Z::from(3u32);
+    let nine = Z::from(9u32);
+    assert!((n % &nine).is_zero());
+    let m = n / &nine;
+    assert!(!(&m % &three).is_zero());
+    if a.pow(&(n / &three)) != F::one() {
+        return None;
+    }
+    let k = if &m % &three == Z::one() { Z::from(2u32) } else { Z::one() };
+    let e = (Z::one() + &k * &m) / &three;
+    let x0 = a.pow(&e);
+    let mut i = 0u64;
+    let g = loop {
+        let g = cand(i).pow(&m);
+        if !g.is_zero() && g.pow(&three) != F::one() {
+            break g;
+        }
+        i += 1;
+    };
+    let mut zt = F::one();
+    for _ in 0..9 {
+        let c = x0.mul(&zt);
+        if c.sqr().mul(&c) == *a {
+            return Some(c);
+        }
+        zt = zt.mul(&g);
+    }
+    None
 }
 
 // ---------------------------------------------------------------------------------------------
@@ -175,6 +213,9 @@ impl Fld for Fq {
 }
 
 impl SqrtFld for Fq {
+    fn cube_root(&self) -> Option<Self> {
+        cbrt_by_sylow(self, &(q() - Z::one()), &|i| Fq::from_u64(2 + i))
+    }
     fn is_square(&self) -> bool {
         self.euler() >= 0
     }
@@ -284,6 +325,9 @@ impl Fld for Fq2 {
 }
 
 impl SqrtFld for Fq2 {
+    fn cube_root(&self) -> Option<Self> {
+        self.cbrt()
+    }
     fn is_square(&self) -> bool {
         // a is a square in Fq2 iff its norm is a square in Fq (norm map is onto, kernel argument)
         self.norm().euler() >= 0
